@@ -44,6 +44,8 @@ LEVELS = {'uneven3': [0.0, 0.2, 0.55, 1.0], 'even2': [0.0, 0.5, 1.0]}
 DT = 0.01
 C_FD = 1e7
 H = 1e-2
+H_KINK = 1e-6        # step (in units of the natural amplitude) at base points that sit on a kink
+C_KINK = 4.5e11      # 1e-4 relative: O(h) truncation of the central difference at a kink + rounding eps/h
 
 INTEGRATORS = ('euler', 'rk2', 'rk3', 'rk4', 'sil3')
 FILTERS = ('none', 'exp', 'diffusion', 'exp+diffusion')
@@ -85,6 +87,8 @@ def units(tier, seed):
                    full=tier == 'thorough', palette=pal))
   for params in (('default', 'floor_active') if tier == 'quick' else ('default', 'floor_active', 'thin_boundary_layer', 'sigma_b_on_level')):
     us.append(dict(kind='held_suarez', params=params, impl='real', levels='uneven3', palette=pal, full=tier == 'thorough'))
+  for impl in (('real',) if tier == 'quick' else tuple(IMPLS)):
+    us.append(dict(kind='upwind', impl=impl, levels='uneven3', palette=pal))
   us.append(dict(kind='interp'))
   for n in ([4, 6] if tier == 'quick' else [4, 6, 8, 12]):
     us.append(dict(kind='scan', length=n, palette=pal))
@@ -100,7 +104,7 @@ _JIT = {}
 
 # -- generic Jacobian oracle ---------------------------------------------------------------------------------------
 
-def _jacobians(rec, f, x0, key, site, *, fd=True, hvec=None, batch_fd=True, c_fd=C_FD, c_adj=1e4):
+def _jacobians(rec, f, x0, key, site, *, fd=True, hvec=None, batch_fd=True, c_fd=C_FD, c_adj=1e4, kink=False):
   """f: R^n -> R^m (jax). Full forward and reverse Jacobians at x0; finite, adjoint, FD."""
   import jax, jax.numpy as jnp
   n = x0.shape[0]
@@ -117,7 +121,18 @@ def _jacobians(rec, f, x0, key, site, *, fd=True, hvec=None, batch_fd=True, c_fd
   scale = max(float(np.abs(Jfs).max()) if ok else 1.0, 1e-300)
   rec.close(Jfs, Jrs, scale=scale, C=c_adj, site=site + '/forward_equals_reverse_transposed', key=key)
   transitions = n + m
-  if fd:
+  if fd and kink:
+    # base point ON a kink of a piecewise-smooth function (jnp.maximum / minimum ties): the 2-point central difference
+    # converges to the mean of the one-sided slopes with an O(h) error, so a small step and the tolerance C_KINK are used
+    E = np.eye(n) * (H_KINK * hv)[:, None]
+    x0n = np.asarray(x0)
+    d1 = np.asarray(fj(jnp.asarray(x0n + E))) - np.asarray(fj(jnp.asarray(x0n - E)))
+    fdj = (d1 / (2 * H_KINK)).T
+    f0 = np.asarray(f1(x0))
+    fscale = max(scale, float(np.abs(f0).max()) if f0.size else 0.0)
+    rec.close(Jfs, fdj, scale=fscale, C=C_KINK, site=site + '/forward_equals_central_difference_at_kink', key=key)
+    transitions += 2 * n + 1
+  elif fd:
     E = np.eye(n) * (H * hv)[:, None]
     x0n = np.asarray(x0)
     if batch_fd:
@@ -286,6 +301,52 @@ def _work_tendency(unit, rec):
         continue       # linear maps: the Jacobian cannot depend on the base point (checked on 3 lattice states + dense)
       x0 = _flat(mk(d))[0]
       _jacobians(rec, f, x0, (name, tag, label), name, hvec=hvec)
+
+
+def _work_upwind(unit, rec):
+  """Non-default first-order upwind vertical advection: max(w,0) / min(w,0) have a kink at w == 0, which is where
+  every resting or purely rotational state sits (sigma-dot == 0 exactly).  jnp.maximum / minimum split the derivative
+  at a tie, which is what a central finite difference converges to; the property asks for exactly that agreement."""
+  import jax, jax.numpy as jnp
+  from dinosaur import sigma_coordinates as sc
+  pal = unit['palette']
+  M, L = GRID[0], GRID[1]
+  bnds = LEVELS[unit['levels']]; K = len(bnds) - 1
+  cls = 'PrimitiveEquations'
+  # (a) the advection operator itself as a function of (w, x), at w == 0, w > 0, w < 0 and mixed columns
+  coordsv = sc.SigmaCoordinates(np.asarray(bnds))
+  xcol = np.array([1.0, -0.5, 2.0])[:K].reshape(K, 1, 1) * np.ones((K, 1, 2))
+  for wname, w in (('zero', np.zeros((K - 1, 1, 2))), ('positive', np.full((K - 1, 1, 2), 0.3)), ('negative', np.full((K - 1, 1, 2), -0.2)),
+                   ('mixed_with_zero', np.array([[0.0, 0.4], [-0.3, 0.0]])[:K - 1].reshape(K - 1, 1, 2))):
+    n_w = w.size
+    f = lambda z: sc.upwind_vertical_advection(z[:n_w].reshape(w.shape), z[n_w:].reshape(xcol.shape), coordsv).ravel()
+    x0 = jnp.asarray(np.concatenate([w.ravel(), xcol.ravel()]))
+    _jacobians(rec, f, x0, ('upwind_operator', wname), 'upwind_vertical_advection', kink=bool(np.any(w == 0)))
+  # (b) through the equations
+  impl, specs, coords, eq0, tref = _pe_setup(unit, cls, K, bnds)
+  orog = np.zeros((2 * M - 1, L)); orog[0, 1] = 2e-4; orog[1, 1] = 1.4e-4
+  eq = harness.make_pe(cls, coords, tref, orog, specs, impl=impl, vertical_advection=sc.upwind_vertical_advection)
+  fields = tuple((f_, zm, 1 if f_ == 'lnps' else K) for f_, zm in PE_FIELDS)
+  dense = _dense(K, M, L, pal, fields)
+  zero = {f_: np.zeros_like(v) for f_, v in dense.items()}
+  rest = dict(zero, temperature=dense['temperature'])
+  rot = dict(zero, vorticity=dense['vorticity'], temperature=dense['temperature'])
+  p00 = _lnps_mean(specs, M, L)
+  mk = lambda d: harness.pe_state(cls, coords, impl, d['vorticity'], d['divergence'], d['temperature'], d['lnps'] + p00)
+  s0 = mk(dense)
+  _, unravel = _flat(s0)
+  hvec = _scales_like(s0, _pe_amp(s0))
+  f = lambda x: _flat(eq.explicit_terms(unravel(x)))[0]
+  tag = ['upwind', unit['impl'], unit['levels']]
+  for label, d, kink in (('dense', dense, False), ('rest', rest, True), ('rotational', rot, True)):
+    st = mk(d)
+    if kink:     # the premise of the kink cases: sigma-dot is exactly zero
+      from dinosaur import primitive_equations as pe
+      aux = pe.compute_diagnostic_state(st, coords)
+      rec.check(not np.any(np.asarray(aux.sigma_dot_full) != 0), 'upwind_kink_premise_sigma_dot_exactly_zero', ('upwind', tag, label), {})
+    # the small-step two-point rule is used for the generic state too: with the 4-point rule and step 1e-2 some node's
+    # sigma-dot changes sign inside the stencil (piecewise-smooth function), which is an error of the oracle, not of jvp
+    _jacobians(rec, f, _flat(st)[0], ('explicit_terms[upwind]', tag, label), 'explicit_terms[upwind]', hvec=hvec, kink=True)
 
 
 def _make_step(unit, eq, g, specs, coords, tref):
